@@ -247,8 +247,11 @@ func runC09(c *config) {
 		c09Value(c, w, x, "entropy_straddle")
 	}
 	// 5. malformed and non-canonical spellings (outcome class only through the model)
-	for _, s := range []string{"", "-", "+", "+5", "-0", "007", "abc", "12a", "u0x", "s0x", "u0xG", "s0xZZ", "0x10", "true ", "True", "1.0", "--1", "1e3"} {
-		for _, w := range []uint64{1, 8, 64} {
+	for _, s := range []string{"", "-", "+", "+5", "-0", "007", "abc", "12a", "u0x", "s0x", "u0xG", "s0xZZ", "0x10", "true ", "True", "1.0", "--1", "1e3",
+		// a sign after the prefix: big.Int.SetString takes it (the lexer never produces such a token, the public
+		// constructor does accept it; found when the regenerated body was proved equal to the model)
+		"u0x-F", "u0x+F", "s0x-F", "s0x+80", "s0x-80", "u0x-", "u0x+", "s0x-", "-u0xF", "u0x-0", "s0x-FF", "s0x+7F", "u0xf", "s0xfF", "u0x_F", "1_0", "0b1", " 1", "+"} {
+		for _, w := range []uint64{1, 8, 9, 64} {
 			res, _ := c09Parse(w, s)
 			o.Case("parse_int", []string{fmt.Sprint(w), hx(s)}, []string{res})
 			o.Stat("malformed")
